@@ -271,8 +271,9 @@ theorem V2.angle_spec (u v : V2 ℝ) (hu : 0 < u.magnitude2) (hv : 0 < v.magnitu
   · rw [hm]; simpa [V2.angle] using a2
   · simpa [V2.angle] using a3
   · simpa [V2.angle] using a4
-/-- swapping the arguments of the 2-D angle negates its sine and keeps its cosine
-(so the angle changes sign, except at the half turn) -/
+/-- swapping the arguments negates the perpendicular dot product and keeps the dot product, i.e. the two arguments that
+`Vector2::angle` passes to `atan2` (only this is stated; the consequence that the angle itself changes sign, except at the half
+turn, is not drawn here) -/
 theorem V2.angle_antisymm (u v : V2 ℝ) :
     V2.perpDot v u = -V2.perpDot u v ∧ V2.dot v u = V2.dot u v := by
   constructor <;> (simp; ring)
